@@ -127,14 +127,14 @@ reg("C17", "checks.interrupt", dict(quick=500, thorough=12000), dict(quick=55, t
     "in flight or >= 1 pre-emptive switch; distinct = distinct (world, interleaving digest)",
     chunk=4, recheck_every=25)
 
-reg("C08", "checks.cuts", dict(quick=260, thorough=6000), dict(quick=55, thorough=900), "fault_enumeration",
+reg("C08", "checks.cuts", dict(quick=600, thorough=9000), dict(quick=44, thorough=900), "fault_enumeration",
     "one case = one generated registry world + prior history (0-3 operations) + run configuration + schedule seed; "
     "the run is executed uncut to learn its N cut positions (call start, store read, write before / after its effect, "
-    "modified-time query), then re-executed for EVERY k <= N (cap 40 quick / 120 thorough) both with an exception "
+    "modified-time query - of the modified-time queries, which all precede any write, the first, middle and last), then re-executed for EVERY such k <= N (cap 30 quick / 120 thorough, evenly spread when there are more) both with an exception "
     "raised in the k-th operation and with process death at it (stores frozen at that instant), each followed by a "
     "fresh-process repair run; evaluations = simulated runs; non-trivial = >= 2 operations in flight or >= 1 "
     "pre-emptive switch; distinct = distinct (world, interleaving digest)",
-    chunk=2, recheck_every=10)
+    chunk=1, recheck_every=10)
 
 reg("C14", "checks.history", dict(quick=1500, thorough=30000), dict(quick=55, thorough=900), "exploration",
     HISTORY_RULE + "; the last operation is executed three times from the same store snapshot: as a dry run, as the "
